@@ -14,7 +14,7 @@ def run(chk, replay=None):
                        "and a 2-d distribution (names from '', ' ', 'a b', ' lead', 'trail ', 'x'), unequal calls: the uninterrupted run and all 2^(n-1) "
                        "compositions, each interruption through memory, text or the file written by the built-in callback; plus configurations with a "
                        "target precision (early stop). non-trivial = history with at least one interruption through text or file")
-    rows, ok = run_session(chk, 1, "C03:resume", "resume", [a for a in ACTIONS if a != "TRollback"], replay=replay)
+    rows, ok = run_session(chk, 1, "C03:resume", "resume", [a for a in ACTIONS if a != "TRollback"], replay=replay, big=True)
     hs = histories(rows)
     chk.cov["evaluations"] = len(hs)
     for i, (cfg, ops) in enumerate(hs):
